@@ -87,6 +87,14 @@ func (l *Link) Close() {
 	l.wake()
 }
 
+// SetFailWrites makes every later write of the system fail with err (nil: writes work again), as
+// writes to a peer that has become unreachable do.
+func (l *Link) SetFailWrites(err error) {
+	l.mu.Lock()
+	l.FailWrites = err
+	l.mu.Unlock()
+}
+
 // SetStalled makes the peer stop reading (a full socket buffer): while stalled, the
 // system's writes block until their write deadline and then fail with a timeout, as
 // writes to a TCP connection whose receiver has stopped reading do.
